@@ -17,7 +17,7 @@ From Coq Require Import NArith.
 Require Import DS.Registry.   (* name, name_le, key_le *)
 
 Definition value := list N.
-Definition vmap := gmap name value.
+Notation vmap := (gmap name value).
 
 (* str::starts_with *)
 Fixpoint starts_with (p s : name) : bool :=
